@@ -423,6 +423,7 @@ def render(ex):
     L.append("   wrapper runs with (the threshold is the exact value of the binary64 literal) *)")
     L.append("Definition default_min_temperature_count : nat := %d." % fd["min_temperature_count"])
     L.append("Definition default_occupancy_threshold : Q := %s." % vlib.qlit(Fraction(fd["threshold"])))
+    L.append("Definition default_occupancy_threshold_f : float := %s." % vlib.fhex(float(fd["threshold"])))
     L.append("")
     wk = ex["wrapper_month_keys"]
     L.append("(* HourlyModel.fit, uncertainty figures: month_dict, and k.replace(A, B).split(SEP)[I] *)")
